@@ -1,6 +1,7 @@
 package main
 
 import (
+	"go/parser"
 	"fmt"
 	"go/ast"
 	"go/token"
@@ -1448,6 +1449,35 @@ func (vc *VC) siteHooks(st *State, key string, instr ssa.Instruction, before boo
 	}
 	vc.curInstr = instr
 	match := func(pat string, ord int) bool {
+		if i := strings.Index(pat, "("); i > 0 && strings.HasSuffix(pat, ")") && !strings.HasPrefix(pat, "(") {
+			// name(arg): a call of name whose first argument is the current value of the local variable arg -
+			// robust against other calls of the same function being added or removed (no ordinal needed)
+			argName := pat[i+1 : len(pat)-1]
+			pat = pat[:i]
+			ci, ok := instr.(ssa.CallInstruction)
+			if !ok || len(ci.Common().Args) == 0 {
+				return false
+			}
+			ae, err := parser.ParseExpr(argName)
+			if err != nil {
+				return false
+			}
+			env := vc.fnEnvNames(st)
+			var at Term
+			func() {
+				defer func() {
+					if r := recover(); r != nil {
+						if _, ok := r.(specError); !ok {
+							panic(r)
+						}
+					}
+				}()
+				at = env.tr(ae).T
+			}()
+			if at == "" || at != vc.val(st, ci.Common().Args[0]).T {
+				return false
+			}
+		}
 		if strings.HasPrefix(pat, "@") {
 			// @name: a call through the function value held by the parameter / variable "name"
 			if key != "dynamic:"+pat[1:] {
